@@ -182,6 +182,36 @@ func (g *sgen) stmt() Stmt {
 	case x < 35:
 		d, t := g.tk("lambda f: f")
 		return Stmt{Kind: "compound", Lines: []string{"@" + d, "def g" + fmt.Sprint(r.Intn(2)) + "():", in + "return 42"}, Ticks: []int{t}}
+	case x < 37 && r.Chance(1, 2):
+		switch r.Intn(7) {
+		case 0: // for/else
+			n, t := g.tk(fmt.Sprint(1 + r.Intn(2)))
+			a, t2 := g.tk("7")
+			return Stmt{Kind: "compound", Lines: []string{"for i in range(" + n + "):", in + "pass", "else:", in + g.v() + " = " + a}, Ticks: []int{t, t2}}
+		case 1: // while/else
+			c, t := g.tk("False")
+			a, t2 := g.tk("8")
+			return Stmt{Kind: "compound", Lines: []string{"while " + c + ":", in + "pass", "else:", in + g.v() + " = " + a}, Ticks: []int{t, t2}}
+		case 2: // try/except/else/finally
+			a, t := g.tk("1")
+			b, t2 := g.tk("2")
+			c, t3 := g.tk("3")
+			return Stmt{Kind: "compound", Lines: []string{"try:", in + g.v() + " = " + a, "except ValueError:", in + "pass", "else:", in + g.v() + " = " + b, "finally:", in + g.v() + " = " + c}, Ticks: []int{t, t2, t3}}
+		case 3: // nested def (closure) and a dedent back to the outer body
+			d, t := g.tk("2")
+			return Stmt{Kind: "compound", Lines: []string{"def f" + fmt.Sprint(r.Intn(3)) + "(a, b=" + d + "):", in + "def inner(c):", in + in + "return a + b + c", in + "return inner(1)"}, Ticks: []int{t}}
+		case 4: // bare expression spanning lines inside brackets: echoed once
+			a, t := g.tk(g.intExpr())
+			return Stmt{Kind: "expr-multi", Lines: []string{"[" + a + ",", "  2,", "]"}, Ticks: []int{t}}
+		case 5: // ';' list ending in an expression: the expression is echoed
+			a, t := g.tk(g.intExpr())
+			e, t2 := g.tk(g.intExpr())
+			return Stmt{Kind: "semi-expr", Lines: []string{g.v() + " = " + a + "; " + e}, Ticks: []int{t, t2}}
+		default: // a whitespace-only line inside a block does not end it
+			a, t := g.tk(g.intExpr())
+			b, t2 := g.tk(g.intExpr())
+			return Stmt{Kind: "compound", Lines: []string{"if True:", in + g.v() + " = " + a, in, in + g.v() + " = " + b}, Ticks: []int{t, t2}}
+		}
 	case x < 37:
 		bad := []string{"x = = 1", "1 +* 2", "def (:", "v0 = )", "if", "for in x:", "v1 = 5 5", "class :", "return", "a b"}
 		return Stmt{Kind: "syntaxerr", Lines: []string{bad[r.Intn(len(bad))]}}
@@ -336,7 +366,7 @@ func devnullStderr() func() {
 
 func stmtText(st Stmt) string { return strings.Join(st.Lines, "\n") }
 
-func isExprKind(k string) bool { return k == "expr" || k == "exprnone" }
+func isExprKind(k string) bool { return k == "expr" || k == "exprnone" || k == "expr-multi" }
 
 func (Engine) Exec(sci interface{}, opt harness.ExecOpts) *harness.Outcome {
 	sc := sci.(*Scenario)
@@ -400,6 +430,24 @@ func (Engine) Exec(sci interface{}, opt harness.ExecOpts) *harness.Outcome {
 							lastVal = r.value
 						}
 					}
+				}
+			} else if st.Kind == "semi-expr" {
+				parts := strings.SplitN(text, "; ", 2)
+				r.isExpr = true
+				code, err := py.Compile(parts[0]+"\n", "<ref>", py.ExecMode, 0, true)
+				if err != nil {
+					r.errKind = "syntax"
+				} else if _, err := rs.Ctx.RunCode(code, rs.Main.Globals, rs.Main.Globals, nil); err != nil {
+					r.errKind = "runtime"
+				} else if code2, err := py.Compile(parts[1], "<ref>", py.EvalMode, 0, true); err != nil {
+					r.errKind = "syntax"
+				} else if v, err := rs.Ctx.RunCode(code2, rs.Main.Globals, rs.Main.Globals, nil); err != nil {
+					r.errKind = "runtime"
+				} else if v == py.None {
+					r.none = true
+				} else if rp, err := py.Repr(v); err == nil {
+					r.value = string(rp.(py.String))
+					lastVal = r.value
 				}
 			} else {
 				code, err := py.Compile(text+"\n", "<ref>", py.ExecMode, 0, true)
